@@ -48,7 +48,10 @@ RequestBody(d, o) ==
 HdrChildNs(d) == IF d.hdrForm = "unqualified" /\ d.types = "inline" THEN "" ELSE d.tns
 RequestEnvelope(d, o) ==
   Node(SOAPENV, "Envelope",
-       (IF o.header THEN << Node(SOAPENV, "Header", << Node(d.tns, "Auth", << Leaf(HdrChildNs(d), "token", "s") >>) >>) >> ELSE <<>>)
+       \* d.nhdr = 2: the binding input carries TWO soap:header elements (two parts of one header message): one Header
+       \* element holding both header blocks, in the order of the soap:header elements
+       (IF o.header THEN << Node(SOAPENV, "Header", << Node(d.tns, "Auth", << Leaf(HdrChildNs(d), "token", "s") >>) >>
+                                                       \o (IF d.nhdr = 2 THEN << Node(d.tns, "Audit", << Leaf(HdrChildNs(d), "who", "s") >>) >> ELSE <<>>)) >> ELSE <<>>)
        \o << Node(SOAPENV, "Body", << RequestBody(d, o) >>) >>)
 
 \* --- the client exchange ---------------------------------------------------
